@@ -15,6 +15,7 @@ import (
 	"os"
 	"path/filepath"
 	"runtime"
+	"runtime/pprof"
 	"sort"
 	"strconv"
 	"strings"
@@ -133,7 +134,13 @@ func cmdRun(argv []string) int {
 	smtlog := fs.String("smtlog", "", "directory for solver transcripts (one worker only)")
 	tags := fs.String("tags", "", "build tags")
 	maxFail := fs.Int("maxfail", 5, "stop after this many failing paths per harness")
+	cpuprof := fs.String("cpuprofile", "", "write CPU profile")
 	fs.Parse(argv)
+	if *cpuprof != "" {
+		f, _ := os.Create(*cpuprof)
+		pprof.StartCPUProfile(f)
+		defer pprof.StopCPUProfile()
+	}
 
 	t0 := time.Now()
 	prog, pkg, mod, _, err := loadProgram(*dir, *pkgPat, *goos, overlays, *tags)
@@ -229,6 +236,17 @@ func explore(cfg *Config, workers int, solverBin string, timeoutMs, maxPaths, ma
 	stop := false
 	if smtlog != "" {
 		workers = 1
+	}
+	cfg.Publish = func(w []int) {
+		mu.Lock()
+		work = append(work, w)
+		mu.Unlock()
+		cond.Signal()
+	}
+	cfg.Witnessed = func(tag string) bool {
+		mu.Lock()
+		defer mu.Unlock()
+		return reach[tag]
 	}
 	var wg sync.WaitGroup
 	solverArgs := []string{"-in"}
